@@ -62,7 +62,7 @@ CLASSES = [
          P("silentPeer", PW, None, None),                      # re-pointable link without notify: reads through it must be rejected
          P("constPeer", PW, None, None, constant=True, write=False),
          # naming-collision bait for C16
-         P("barBaz", INT, None, 2), P("barBaz1", INT, None, 2), P("baz", INT, None, 2),
+         P("barBaz", INT, None, 2), P("barBaz1", INT, None, 2), P("baz", INT, None, 2), P("baz1", INT, None, 2), P("z", INT, None, 2), P("z1", INT, None, 2),
      ],
      # signals with defaults expand to clones: poked(int,bool) poked(int) poked()
      "signals": [
